@@ -40,7 +40,7 @@ def patch(
     create=False,
     mocksignature=False,
     spec_set=None,
-    autospec=False,
+    autospec=None,
     new_callable=None,
     **kwargs,
 ):
@@ -74,7 +74,7 @@ def _patch_object(
     create=False,
     mocksignature=False,
     spec_set=None,
-    autospec=False,
+    autospec=None,
     new_callable=None,
     **kwargs,
 ):
